@@ -197,6 +197,11 @@ func genAllow(r *Rng) Sx {
 	if r.Pct(30) {
 		q.Set("Origin", "http://a.example")
 	}
+	if len(t.Services) > 1 && r.Pct(15) {
+		// a registration history behind the table: one more service was there, the OPTIONS filter was asked, then the
+		// service was removed. What is listed afterwards is what the remaining table lists
+		return L(t.Sx(), q.Sx(), L(r.Intn(len(t.Services))))
+	}
 	return L(t.Sx(), q.Sx())
 }
 
@@ -230,6 +235,39 @@ func runAllow(raw Sx) (Sx, Sx) {
 	q := sxReq(sxNth(raw, 1))
 	pr := &probe{}
 	c, kept, _ := buildContainer(t, pr)
+	// the same table with the OPTIONS filter installed as container filter
+	pr2 := &probe{}
+	c2, _, _ := buildContainer(t, pr2)
+	c2.Filter(c2.OPTIONSFilter)
+	keptFull := kept
+	var history Sx
+	if len(sxList(raw)) > 2 && len(kept.Services) == len(t.Services) {
+		k := sxInt(sxNth(sxNth(raw, 2), 0))
+		if k < len(kept.Services) && len(kept.Services) > 1 {
+			gone := kept.Services[k].Root
+			for _, cc := range []*restful.Container{c, c2} {
+				// ask first (whatever the container remembers about its services is remembered now), then remove
+				qq := *q
+				qq.Method = "OPTIONS"
+				cc.Dispatch(httptest.NewRecorder(), qq.HTTP())
+				cc.RegisteredWebServices()
+				for _, ws := range cc.RegisteredWebServices() {
+					if ws.RootPath() == gone || (gone == "" && ws.RootPath() == "/") {
+						cc.Remove(ws)
+					}
+				}
+			}
+			*pr, *pr2 = probe{}, probe{}
+			rest := TableSpec{Router: kept.Router}
+			for i, sv := range kept.Services {
+				if i != k {
+					rest.Services = append(rest.Services, sv)
+				}
+			}
+			kept = rest
+			history = L(k)
+		}
+	}
 	probes := Ls{}
 	for _, m := range methodUniverse(kept) {
 		*pr = probe{}
@@ -239,10 +277,6 @@ func runAllow(raw Sx) (Sx, Sx) {
 		c.Dispatch(rec, qq.HTTP())
 		probes = append(probes, L(A(m), rec.Code, allowSet(rec.Header())))
 	}
-	// the same table with the OPTIONS filter installed as container filter
-	pr2 := &probe{}
-	c2, _, _ := buildContainer(t, pr2)
-	c2.Filter(c2.OPTIONSFilter)
 	qo := *q
 	qo.Method = "OPTIONS"
 	rec := httptest.NewRecorder()
@@ -259,6 +293,10 @@ func runAllow(raw Sx) (Sx, Sx) {
 	untouched := q.Method == "OPTIONS" || (rec2.Code == rec3.Code && SxString(headerSx(rec2.Header(), all)) == SxString(headerSx(rec3.Header(), all)) && len(pr.invoked) == len(pr2.invoked))
 	o := NewOracles()
 	tabulateRouting(o, kept, q.Path)
+	if history != nil {
+		// the case keeps the table as registered and the removal; the model answers for the table without that service
+		return L(o.Sx(), keptFull.Sx(), q.Sx(), history), L(probes, options, B(untouched))
+	}
 	return L(o.Sx(), kept.Sx(), q.Sx()), L(probes, options, B(untouched))
 }
 
